@@ -7,6 +7,9 @@ uniqueness and first-rule attribution for every table, link type and rule list.
 Tie: real predict()/deterministic_link() vs the compiled model on generated tables x rule lists
 (rule outcomes computed by an independent 3-valued evaluator), plus the exhaustive enumeration of
 outcome vectors in {T,F,N}^n, n<=4; a brute-force oracle decides the property on the real output.
+SQL level (harness/props/c01_sql.py): the per-rule statements of __splink__blocked_id_pairs are regenerated as Rel terms
+(Generated/BlockSql.lean), Properties/C01Sql.lean proves exactness / first-rule attribution / multiplicity 1 / refinement of
+Blocking.block for them under Rel.eval, and the regenerated terms are evaluated on the small plain-rule cases against the engine.
 """
 from __future__ import annotations
 
@@ -808,6 +811,7 @@ def compare(ctx, cases, drv):
         by_case_req[ci].append(rq)
         by_case_m[ci].append(m)
     problems = []
+    sql_items = []
     for c, vs, reqs_c, r, ms in zip(cases, allviews, by_case_req, res, by_case_m):
         recs = records(c)
         musts = [oracle(c, v)[0] for v in vs]
@@ -835,6 +839,7 @@ def compare(ctx, cases, drv):
             ids = [rec_id(x) for x in records(c, vw["tables"])]
             mrows = sorted((mk, ids[l], ids[rr]) for mk, l, rr in m["rows"])
             irows = sorted((mk, tuple(l), tuple(rr)) for mk, l, rr in rows)
+            sql_items.append((c, vi, vw, records(c, vw["tables"]), multi(c), irows))
             if mrows != irows:
                 extra = [x for x in irows if x not in mrows][:3]
                 missing = [x for x in mrows if x not in irows][:3]
@@ -844,6 +849,9 @@ def compare(ctx, cases, drv):
             problems.append((c, bad, False))
             continue
         ctx.traces_validated += 1
+    from harness.props import c01_sql
+
+    problems += c01_sql.validate(ctx, sql_items, drv)  # the regenerated SQL under Rel.eval vs the engine (translation validation)
     return problems
 
 
@@ -966,7 +974,13 @@ def run(ctx: core.Ctx):
         "rule outcomes are computed by the harness's own 3-valued evaluator for the generated grammar (engine expression semantics trusted for atoms)",
         "for rules asymmetric in l/r only uniqueness and the two-sided bound are required (property statement)",
     ]
+    from harness.props import c01_sql
+
+    sql_errs = c01_sql.prepare()  # Generated/BlockSql.lean: the per-rule statements of __splink__blocked_id_pairs block_using_rules_sqls emits now, as Rel terms (T-sql); Properties/C01Sql.lean is re-checked against it
     ctx.lean = core.lean_check(PROP, ctx.thorough)
+    if sql_errs:
+        ctx.lean.ok = False
+        ctx.lean.problems += ["T-sql: " + e for e in sql_errs]
     drv = core.Driver()
     if ctx.replay:
         case = normalise(json.loads(open(ctx.replay).read())["replay"]["case"])
